@@ -433,6 +433,17 @@ theorem verifyCategorical_ok (nb omin omax mono : Val) (c : CatCfg)
 
 /-! ### the cycle check of the categorical constructors (fix 66006cc) -/
 
+/-- an accepted `num_buckets` is `None` or an integer ≥ 1 -/
+theorem nbFew_false {v : Val} (h : nbFew v = .ok false) : lessThan v 1 = .ok false := by
+  unfold nbFew at h
+  split at h
+  · rfl
+  · rename_i k
+    have hk : ¬ k < 1 := by simpa using h
+    have hq : ¬ ((k : Rat) < 1) := by exact_mod_cast hk
+    simp [lessThan, Atom.toNum, Atom.num, Except.map, hq]
+  · simp at h
+
 /-- the parts of an accepted categorical configuration -/
 theorem verifyCategorical_parts {nb omin omax mono : Val} {c : CatCfg}
     (h : verifyCategorical nb omin omax mono = .ok c) :
@@ -445,8 +456,9 @@ theorem verifyCategorical_parts {nb omin omax mono : Val} {c : CatCfg}
   split at h
   · cases h
   rename_i hf
-  have hfew' : lessThan nb 1 = .ok false := by
+  have hfew0 : nbFew nb = .ok false := by
     rw [hfew]; congr; simpa using hf
+  have hfew' : lessThan nb 1 = .ok false := nbFew_false hfew0
   split at h
   · cases h
   · split at h
@@ -578,7 +590,7 @@ theorem verifyCategorical_acyclic (nb omin omax mono : Val) (c : CatCfg)
 well-formed and in range, the configuration is accepted iff its pair list has no cycle
 (soundness `kahnAcyclic_sound` and completeness `kahnAcyclic_complete` of the rounds). -/
 theorem verifyCategorical_accepts_iff (nb omin omax mono : Val) (lo hi : Option Rat) (ps : List (Rat × Rat))
-    (hnb : lessThan nb 1 = .ok false)
+    (hnb : nbFew nb = .ok false)
     (hlo : boundOf omin = .ok lo) (hhi : boundOf omax = .ok hi) (hb : hiLtLo lo hi = false)
     (hps : catPairs (nbOf nb) mono = .ok ps) :
     outcome (verifyCategorical nb omin omax mono) = 0 ↔ PAcyclic ps := by
